@@ -34,22 +34,85 @@ def _solver(hyps, goal, timeout_ms, seed=0):
     return s
 
 
-def discharge(hyps, goal, timeout_ms=None, want_model=False, portfolio=True):
+def _symbols(e, cache):
+    """names of the uninterpreted symbols occurring in e"""
+    i = e.get_id()
+    if i in cache:
+        return cache[i]
+    out = set()
+    seen = set()
+    todo = [e]
+    while todo:
+        x = todo.pop()
+        j = x.get_id()
+        if j in seen:
+            continue
+        seen.add(j)
+        if z3.is_quantifier(x):
+            todo.append(x.body())
+            continue
+        if z3.is_app(x):
+            d = x.decl()
+            if d.kind() == z3.Z3_OP_UNINTERPRETED:
+                out.add(d.name())
+            todo.extend(x.children())
+    cache[i] = out
+    return out
+
+
+_SYMCACHE = {}
+
+
+def relevant(hyps, goal):
+    """cone of influence: hypotheses connected to the goal through shared *fresh* symbols (Skolem
+    functions and other per-call symbols, recognisable by '!'); named symbols (user functions, grid and
+    label functions, sizes) are hubs that do not propagate relevance.  Hypotheses without fresh symbols
+    are always kept.  Dropping hypotheses is sound for `unsat`."""
+    fresh = lambda ss: {x for x in ss if "!" in x}
+    syms = fresh(_symbols(goal, _SYMCACHE))
+    hs = [(h, fresh(_symbols(h, _SYMCACHE))) for h in hyps]
+    keep = [not ss for _, ss in hs]
+    changed = True
+    while changed:
+        changed = False
+        for i, (h, ss) in enumerate(hs):
+            if keep[i]:
+                continue
+            if ss & syms:
+                keep[i] = True
+                if not ss <= syms:
+                    syms |= ss
+                    changed = True
+    return [h for (h, _), kp in zip(hs, keep) if kp]
+
+
+def discharge(hyps, goal, timeout_ms=None, want_model=False, portfolio=True, full=False):
     timeout_ms = timeout_ms or PROVE_TIMEOUT_MS
     g = z3.simplify(goal)
     if z3.is_true(g):
         return Result("proved", "simplifier", 0.0)
+    if not full:
+        sub = relevant(hyps, goal)
+        if len(sub) < len(hyps):
+            r = discharge(sub, goal, timeout_ms, want_model, portfolio=False, full=True)
+            if r.status == "proved":
+                return r
     t0 = time.time()
     # first attempt for VCs with nonlinear terms: nonlinear products abstracted by an uninterpreted function (sound for `unsat`:
     # the abstraction only weakens the theory); decides goals that hold by congruence
-    if _has_nonlinear(goal) or any(_has_nonlinear(h) for h in hyps):
-        cache = {}
+    # (the rewrite also drops the explicit quantifier patterns, so this attempt runs with z3's inferred
+    # triggers; MBQI on first -- fastest in practice -- then E-matching only)
+    cache = {}
+    ah = [abstract_products(h, cache) for h in hyps]
+    ag = abstract_products(goal, cache)
+    for mbqi, tmo in ((True, 4000), (False, 5000)):
         s3 = z3.Solver()
-        s3.set("timeout", min(timeout_ms, 5000))
-        s3.set("smt.mbqi", False)
-        for h in hyps:
-            s3.add(abstract_products(h, cache))
-        s3.add(z3.Not(abstract_products(goal, cache)))
+        s3.set("timeout", min(timeout_ms, tmo))
+        if not mbqi:
+            s3.set("smt.mbqi", False)
+        for h in ah:
+            s3.add(h)
+        s3.add(z3.Not(ag))
         if s3.check() == z3.unsat:
             return Result("proved", "z3-5.1/products-abstracted", time.time() - t0)
     # next attempt: E-matching only (all proofs here are instantiation proofs; MBQI only slows them)
